@@ -229,8 +229,10 @@ theorem F8.handleMq (g : Gw) (p : MqPkt) : F8 g (g.handleMq p) := by
     · exact F8.refl g
   · exact F8.snSend g _ _
   · split
-    · exact F8.refl g
-    · exact F8.snSend g _ _
+    · exact F8.of_eq rfl rfl rfl
+    · split
+      · exact F8.refl g
+      · exact F8.snSend g _ _
   · exact F8.handleBrokerPublish g _ _ _ _ _ _
   · split
     · split
@@ -253,7 +255,7 @@ theorem F8.handleEvent (g : Gw) (ev : Event) (ha : g.cfg.auth = true) (hq : noAu
   split
   · split
     · rename_i hd p hdec
-      exact F8.handleSn g p ha (by simpa [noAuthEvent, hdec] using hq)
+      exact (F8.handleSn g p ha (by simpa [noAuthEvent, hdec] using hq)).trans (F8.keepBrokerAlive _)
     · exact F8.fail g _
   · exact F8.handleMq g _
   · exact F8.fail g _
